@@ -148,4 +148,12 @@ var props = []Prop{
 		Bounds:  "two worlds in one heap (same types registered in opposite order, different capacity increments), 2 (thorough 5) prefixes on world 1, one operation on world 1 out of the single-entity (11 kinds), batch (5), removal/retarget (6) families and a query/cache/registration/resource/Stats bundle, with every legal argument; then a fixed sequence on world 2; decided per path: the set of blocks written by the operations on one world is disjoint from everything reachable from the other world (pointers, slices, interfaces, maps, closures, reflect values) and contains no package-level variable; both worlds' observables stay equal to their models. A violation is replayed natively with two goroutines driving their own worlds under the race detector.",
 		Outside: "goroutine schedules are not enumerated: footprint disjointness implies race freedom and independence for one-goroutine-per-world programs under every schedule; shared state inside the Go runtime (allocator, reflect type cache) is trusted",
 	},
+	{
+		ID: "C13",
+		Harnesses: []H{{Pkg: "ecs", Fn: "HC13_Determinism", MapOrder: true}, {Pkg: "ecs", Fn: "HC13_Determinism", MapOrder: true, Tags: "tiny", Tier: "thorough"}},
+		Conform: []H{{Pkg: "ecs", Fn: "HSmoke"}},
+		Census:  true,
+		Bounds:  "self-composition: two freshly created worlds (recording listeners and a registered filter installed) receive the same prefix (3, thorough 6) and the same 1 (thorough 2) operation(s) out of 9 kinds (creation, creation with target, removal, exchange, retarget, batch removal by filter, batch creation, Reset, batch exchange) with arguments picked once; handles, event sequences, query iteration order for 6 filters (plain and registered) and entity dumps must be equal in both worlds; in the engine every range over a map picks its next entry by a solver-chosen index, independently in the two worlds, so a dependence on map order yields a concrete witness order (replayed natively 50 times, Go randomises map iteration); the SSA census of map-range sites, pointer-to-integer conversions, go/select statements and time/rand callees in the four library packages is reported in the evidence",
+		Outside: "garbage-collection timing and cross-process effects other than map iteration order (the engine has no collector and one process); ordering by address is covered only by the census (no pointer-to-integer conversion exists in the library)",
+	},
 }
